@@ -6,7 +6,13 @@ import PyamgV.Proofs.Proj
 import PyamgV.Proofs.C10Fit
 import PyamgV.Proofs.C10Proj
 import PyamgV.Proofs.ExtC10RefineD
+import PyamgV.Proofs.ExtC10bImmCsr
+import PyamgV.Proofs.ExtC10bImmBsr
+import PyamgV.Proofs.ExtC10bCFit
+import PyamgV.Proofs.ExtC10bGmresArr
+import PyamgV.Proofs.ExtC10bGmresFull
 import Mathlib.Analysis.Real.Sqrt
+import Mathlib.Tactic.IntervalCases
 import Mathlib.Algebra.Order.Ring.Rat
 import Mathlib.Algebra.Field.Rat
 
@@ -22,8 +28,12 @@ compares them — and the loop-by-loop array models of `Model/C10.lean` (`c10_fi
 with the rebuilt kernels and the public Python functions, exactly where binary64 arithmetic is exact.
 
 Scalars: any linearly ordered field with a square-root function for the tentative prolongator (real
-case; the complex kernel is covered by the executable model and the search), any commutative ring
-for the projection / smoothing statements (ℚ, ℝ, ℂ; `Bh` is an arbitrary matrix, `Bᴴ` in the code). -/
+case; complex case = pairs `(re, im)` over such a field with the conjugated dot product, section
+"extension E24"), any commutative ring for the projection / smoothing statements (ℚ, ℝ, ℂ; `Bh` is an
+arbitrary matrix, `Bᴴ` in the code).  Extension E24 adds: the pattern-restricted product kernels
+(`incomplete_mat_mult_csr`, `incomplete_mat_mult_bsr`), the complex tentative prolongator, and the whole
+GMRES energy-minimisation loop (executable model `energyGmres`, property proved for every input on which
+the model returns). -/
 namespace PyamgV.Props.C10
 open PyamgV
 
@@ -184,6 +194,127 @@ restate reset_update := PyamgV.C10.reset_update
 /-- `degree` passes of `P ← P − M·P` equal `(I − M)^degree·T` -/
 restate smoothing_polynomial := PyamgV.C10.smoothing_polynomial
 
+
+/-! ## extension E24
+
+### pattern-restricted products: `incomplete_mat_mult_csr` (evolution_strength.h), `incomplete_mat_mult_bsr`
+
+`C10bM.incompleteMatMultCsr` (two-pointer merge `my_inner`, op `ext_c10b_imm_csr`) and
+`C10M.incompleteMatMultBsr` (marker array + `gemm`, op `c10_imm`) are the loop-by-loop models the check
+compares exactly with the kernels.  Preconditions as the kernels state them: CSR kernel -- column indices
+of every row of `A` and row indices of every column of `B` strictly increasing (`SortedSeg`); BSR kernel
+-- block columns of `S` distinct inside a block row and `< n_bcol` (indices need not be sorted). -/
+
+/-- the `while` loop of `my_inner` adds the sparse dot product of the remaining sorted segments -/
+restate imm_csr_merge := PyamgV.C10b.innerLoop_spec
+/-- the fuel of the model always reaches the loop's exit test (sorted or not) -/
+restate imm_csr_fuel := PyamgV.C10b.innerLoop_exit
+restate imm_csr_inner := PyamgV.C10b.myInner_spec
+/-- the sparse dot product is `Σ_k A[row,k]·B[k,col]` with `csEntry` the entries the arrays denote -/
+restate imm_csr_entry_dot := PyamgV.C10b.entry_dot
+restate imm_csr_entry_sorted := PyamgV.C10b.csEntry_sorted
+/-- **CSR kernel**: every stored position of `S` receives `(A·B)[row, Sj ptr]`, nothing else changes -/
+restate imm_csr_spec := PyamgV.C10b.incompleteMatMultCsr_spec
+/-- `gemm` (row-major `B`, row-major block of `S`, accumulate) adds the block product -/
+restate imm_bsr_gemm := PyamgV.C10b.gemm_acc
+/-- the model is the fold of `bsrStep` over the block rows (by `rfl`) -/
+restate imm_bsr_eq := PyamgV.C10b.incompleteMatMultBsr_eq
+/-- one block row: marker set, products accumulated on the marked blocks, marker cleared -/
+restate imm_bsr_row := PyamgV.C10b.bsrStep_spec
+/-- **BSR kernel**: entry `(a,b)` of stored block `jj` of block row `i` grows by
+`Σ_{pa ∈ row i of A} Σ_{kk ∈ row Aj[pa] of B, Bj[kk] = Sj[jj]} (A_pa·B_kk)[a,b]`; nothing else changes -/
+restate imm_bsr_spec := PyamgV.C10b.incompleteMatMultBsr_spec
+/-- that increment is entry `(a,b)` of block `(i, Sj[jj])` of `A·B` (`bsrEntry` = blocks the arrays denote) -/
+restate imm_bsr_entry_dot := PyamgV.C10b.bsr_entry_dot
+
+/-! ### complex tentative prolongator
+
+Complex scalars are pairs `(re, im)` over an ordered field with a square-root function, complex vectors
+pairs of real vectors; `cip dotForm u v = Σ conj(uᵢ)vᵢ` is the kernel's conjugated dot product.
+`C10.cfitAgg` (op `ext_c10b_p_cfit`, compared with `fit_candidates` on every Gaussian-rational instance)
+is the kernel's loop for one aggregate. -/
+
+/-- complex projections against `q₁…q_k` = real projections against `q₁, i q₁, …, q_k, i q_k` -/
+restate cfit_orth_eq := PyamgV.CGS.corth_eq
+restate cfit_orth_spec := PyamgV.CGS.corth_spec
+/-- the whole loop of one aggregate, complex candidates -/
+restate cfit_mgs_spec := PyamgV.CGS.cmgs_spec
+/-- pattern(T) = AggOp ⊗ block (real and imaginary parts) -/
+restate cfit_support := PyamgV.C10.cfit_support
+/-- columns of different aggregates are orthogonal for the complex inner product -/
+restate cfit_cross_orthogonal := PyamgV.C10.cfit_cross_orthogonal
+/-- `TᴴT = I` inside an aggregate up to dropped (zero) columns, `B_a = T_a R_a + drop` -/
+restate cfit_local := PyamgV.C10.cfit_local
+/-- `(T·B_c)[i, c] = B[i, c] − drop` on every aggregated unknown, real and imaginary part -/
+restate cfit_reproduces := PyamgV.C10.cfit_reproduces
+
+/-! ### energy minimisation with GMRES (`smooth.gmres_prolongation_smoothing`)
+
+`C10bM.gmresCore` (Arnoldi with the Frobenius product, Givens rotations, triangular solve; generic in the
+matrices and in the scalar functions) is run by the driver on dense rational arrays (`energyGmres`, op
+`ext_c10b_gmres`) and compared with `energy_prolongation_smoother(krylov='gmres')`. -/
+
+/-- whatever the scalars are: if the projected matrices of the run satisfy a predicate closed under
+scaling and subtraction, so does every Krylov vector, and the result is the fold `T + Σ y_j V_j` -/
+restate gmres_core_inv := PyamgV.C10b.gmresCore_inv
+restate gmres_core_projs := PyamgV.C10b.gmresCore_projs
+/-- on matrices the update directions lie in `Gen proj` and the result is `applyUpdates` of them -/
+restate gmres_updates_gen := PyamgV.C10b.gmresMx_updates_gen
+/-- hence `gen_constrained` + `updates_keep_product` apply: `T'·B = T·B` -/
+restate gmres_keeps_product := PyamgV.C10b.gmresMx_keeps_product
+/-- the executable projection keeps the shape of its argument -/
+restate gmres_project_shape := PyamgV.C10b.projectDense_shape
+restate gmres_run_dims := PyamgV.C10b.energyGmres_dims
+restate gmres_run_closed := PyamgV.C10b.gmres_run_closed
+/-- **array model**: projected matrices of the run annihilate `B_c` (decided on every instance by the
+driver) ⟹ updates annihilate `B_c`, result = `applyUpdates`, `T'·B_c = T·B_c` -/
+restate gmres_run_constrained := PyamgV.C10b.gmres_run_constrained
+/-- **array model**, pattern clause: nothing outside the allowed pattern changes -/
+restate gmres_run_pattern := PyamgV.C10b.gmres_run_pattern
+/-- the exact checks the driver makes on every run (`annihilates`, `offPatternZero`; flag
+`projs-constrained`) imply the hypotheses: a checked run keeps `T·B_c` and the pattern -/
+restate gmres_check_product_sound := PyamgV.C10b.annihilates_sound
+restate gmres_check_pattern_sound := PyamgV.C10b.offPatternZero_sound
+restate gmres_run_checked := PyamgV.C10b.gmres_run_checked
+
+/-! #### the executable model without per-instance hypotheses
+
+The dense projection of the models (`projectDense` / `satisfyDense`, with the Gauss-Jordan inverse
+`Mat.inv` of the local Gram matrices) is proved correct, so the run-relative hypothesis above is a
+theorem: whenever `energyGmres` returns (non-empty pattern, every local Gram matrix invertible), both
+clauses of the property hold for its result. -/
+
+/-- `Mat.inv M = some Z` implies `Z·M = 1` (every field) -/
+restate gauss_jordan_exact := PyamgV.C10b.inv_leftInv
+/-- one projected row annihilates `B` when `Z` inverts the local Gram matrix -/
+restate project_row_annihilates := PyamgV.C10b.row_good
+/-- **`satisfyDense U B = some U'` implies `U'·B = 0`** for every `U` inside the pattern -/
+restate project_dense_annihilates := PyamgV.C10b.satisfyDense_annihilates
+/-- ... and `U'` agrees with `U` outside the pattern -/
+restate project_dense_off := PyamgV.C10b.projectDense_off
+restate gmres_run_projs_constrained := PyamgV.C10b.energyGmres_projs_constrained
+restate gmres_run_projs_pattern := PyamgV.C10b.energyGmres_projs_pattern
+/-- the preconditioners built by `mkPrecond` are admitted (`PreOK`) when `bs = rpb`, as in every call of the check -/
+restate gmres_precond_ok := PyamgV.C10b.mkPrecond_ok
+restate gmres_run_keeps_product := PyamgV.C10b.gmres_run_keeps_product
+/-- **gmres energy minimisation, executable model, every input on which it returns**: `T'·B_c = T·B_c`,
+nothing outside the pattern changes -/
+restate gmres_run_property := PyamgV.C10b.gmres_run_property
+
+/-- the hypothesis of `gmres_keeps_product` is what `satisfy_constraints_spec` provides: with exact local
+inverses the projection `X ↦ project J Z Bh (X·B) X` annihilates `B`, so a GMRES run with it keeps `T·B`
+(any scalar functions, Frobenius product, `maxiter`, `tol`, pattern-restricted operator `f`) -/
+theorem gmres_with_projection {K : Type} [Field K] [DecidableEq K] {m n k : Type} [Fintype m] [Fintype n]
+    [Fintype k] [DecidableEq n] [DecidableEq k] (J : m → Finset n) (Z : m → Matrix k k K) (Bh : Matrix k n K)
+    (B : Matrix n k K) (h : ∀ i, Z i * PyamgV.C10.gram J Bh B i = 1)
+    (fr : Matrix m n K → Matrix m n K → K) (sc : PyamgV.C10bM.SOps K) (f : Matrix m n K → Matrix m n K)
+    (R' T : Matrix m n K) (maxiter : Nat) (tol : K) :
+    (PyamgV.C10bM.gmresCore (PyamgV.C10b.mxOps fr) sc
+        (fun V => some (PyamgV.C10.project J Z Bh (f V * B) (f V)))
+        (PyamgV.C10.project J Z Bh (R' * B) R') T maxiter tol).T * B = T * B :=
+  PyamgV.C10b.gmresMx_keeps_product fr sc (fun X => PyamgV.C10.project J Z Bh (X * B) X) f B
+    (fun X => satisfy_constraints_exact J Z Bh B X h) R' T maxiter tol
+
 /-! ## non-vacuity -/
 
 /-- the hypotheses on the square root hold for the real numbers, so the tentative-prolongator
@@ -227,6 +358,120 @@ example : (Matrix.of ![![(1 / 5 : ℚ)]] : Matrix (Fin 1) (Fin 1) ℚ) *
   fin_cases i; fin_cases j
   simp [PyamgV.C10.gram, Matrix.mul_apply, Fin.sum_univ_two]
   norm_num
+
+
+/-! ### extension E24 -/
+
+/-- `imm_csr_spec` on a concrete input: `A = [[1,2],[0,3]]` (CSR), `B = [[4,5],[0,6]]` (CSC, columns
+`#[0,1,3]`), `S` with the pattern `{(0,1), (1,0)}`; the hypotheses hold (sorted rows / columns) -/
+theorem csr_example_sortedA : ∀ row, row < 2 →
+    PyamgV.C10b.SortedSeg #[0,1,1] (PyamgV.C10M.rdN #[0,2,3] row) (PyamgV.C10M.rdN #[0,2,3] (row + 1)) := by
+  intro row hrow p q h1 h2 h3
+  have hr : row = 0 ∨ row = 1 := by omega
+  rcases hr with rfl | rfl
+  · have e1 : PyamgV.C10M.rdN #[0,2,3] 0 = 0 := rfl
+    have e2 : PyamgV.C10M.rdN #[0,2,3] (0 + 1) = 2 := rfl
+    rw [e1] at h1; rw [e2] at h3
+    have hp : p = 0 := by omega
+    have hq : q = 1 := by omega
+    subst hp hq; decide
+  · have e1 : PyamgV.C10M.rdN #[0,2,3] 1 = 2 := rfl
+    have e2 : PyamgV.C10M.rdN #[0,2,3] (1 + 1) = 3 := rfl
+    rw [e1] at h1; rw [e2] at h3
+    omega
+
+theorem csr_example_sortedB : ∀ col, col < 2 →
+    PyamgV.C10b.SortedSeg #[0,0,1] (PyamgV.C10M.rdN #[0,1,3] col) (PyamgV.C10M.rdN #[0,1,3] (col + 1)) := by
+  intro col hcol p q h1 h2 h3
+  have hr : col = 0 ∨ col = 1 := by omega
+  rcases hr with rfl | rfl
+  · have e1 : PyamgV.C10M.rdN #[0,1,3] 0 = 0 := rfl
+    have e2 : PyamgV.C10M.rdN #[0,1,3] (0 + 1) = 1 := rfl
+    rw [e1] at h1; rw [e2] at h3
+    omega
+  · have e1 : PyamgV.C10M.rdN #[0,1,3] 1 = 1 := rfl
+    have e2 : PyamgV.C10M.rdN #[0,1,3] (1 + 1) = 3 := rfl
+    rw [e1] at h1; rw [e2] at h3
+    have hp : p = 1 := by omega
+    have hq : q = 2 := by omega
+    subst hp hq; decide
+
+theorem small_idx (a : Array Nat) (b : Nat) (h : ∀ i, i < a.size → a.getD i 0 < b) (hb : 0 < b) :
+    ∀ p, PyamgV.C10M.rdN a p < b := by
+  intro p
+  by_cases hp : p < a.size
+  · exact h p hp
+  · unfold PyamgV.C10M.rdN
+    simp [Array.getD_eq_getD_getElem?, Array.getElem?_eq_none (Nat.le_of_not_lt hp), hb]
+
+example : ∀ row, row < 2 → ∀ ptr, PyamgV.C10M.rdN #[0,1,2] row ≤ ptr → ptr < PyamgV.C10M.rdN #[0,1,2] (row + 1) →
+    (PyamgV.C10bM.incompleteMatMultCsr #[0,2,3] #[0,1,1] #[(1:ℤ),2,3] #[0,1,3] #[0,0,1] #[(4:ℤ),5,6]
+        #[0,1,2] #[1,0] #[(7:ℤ),7] 2).getD ptr 0 =
+      ∑ k ∈ Finset.range 2, PyamgV.C10b.csEntry #[0,2,3] #[0,1,1] #[(1:ℤ),2,3] row k *
+        PyamgV.C10b.csEntry #[0,1,3] #[0,0,1] #[(4:ℤ),5,6] (PyamgV.C10M.rdN #[1,0] ptr) k := by
+  refine (PyamgV.C10b.incompleteMatMultCsr_spec #[0,2,3] #[0,1,1] #[(1:ℤ),2,3] #[0,1,3] #[0,0,1] #[(4:ℤ),5,6]
+    #[0,1,2] #[1,0] #[(7:ℤ),7] 2 2 ?_ (by decide) csr_example_sortedA ?_ ?_).2.1
+  · intro r hr
+    have : r = 0 ∨ r = 1 := by omega
+    rcases this with rfl | rfl <;> decide
+  · intro row _ p _ _
+    exact small_idx #[0,1,1] 2 (by intro i hi; have : i < 3 := hi; interval_cases i <;> decide) (by decide) p
+  · intro row _ ptr _ _
+    exact csr_example_sortedB _
+      (small_idx #[1,0] 2 (by intro i hi; have : i < 2 := hi; interval_cases i <;> decide) (by decide) ptr)
+
+/-- ... and the model's value on it: `S = [·, 17; 0, ·]` whatever `Sx` held -/
+example : PyamgV.C10bM.incompleteMatMultCsr #[0,2,3] #[0,1,1] #[(1:ℤ),2,3] #[0,1,3] #[0,0,1] #[(4:ℤ),5,6]
+    #[0,1,2] #[1,0] #[(7:ℤ),7] 2 = #[17, 0] := by decide
+
+/-- `imm_bsr_spec` on a concrete input with **unsorted** block columns: `A = [3 2]`, `B = [[7,5],[0,11]]`,
+`S = [20 10]` stored as columns `(1, 0)`; the hypotheses hold -/
+theorem bsr_example_hyps :
+    PyamgV.C10b.MonoPtr #[0,2] 1 ∧ PyamgV.C10M.rdN #[0,2] 1 * (1 * 1) ≤ (#[(10:ℤ),20] : Array ℤ).size ∧
+    (∀ i, i < 1 → ∀ jj, PyamgV.C10M.rdN #[0,2] i ≤ jj → jj < PyamgV.C10M.rdN #[0,2] (i+1) →
+      PyamgV.C10M.rdN #[1,0] jj < 2) ∧
+    (∀ i, i < 1 → ∀ jj jj', PyamgV.C10M.rdN #[0,2] i ≤ jj → jj < PyamgV.C10M.rdN #[0,2] (i+1) →
+      PyamgV.C10M.rdN #[0,2] i ≤ jj' → jj' < PyamgV.C10M.rdN #[0,2] (i+1) →
+      PyamgV.C10M.rdN #[1,0] jj = PyamgV.C10M.rdN #[1,0] jj' → jj = jj') := by
+  refine ⟨?_, by decide, ?_, ?_⟩
+  · intro r hr
+    have : r = 0 := by omega
+    subst this; decide
+  · intro i hi jj h1 h2
+    have : i = 0 := by omega
+    subst this
+    have e : PyamgV.C10M.rdN #[0,2] (0+1) = 2 := rfl
+    rw [e] at h2
+    interval_cases jj <;> decide
+  · intro i hi jj jj' h1 h2 h3 h4 he
+    have : i = 0 := by omega
+    subst this
+    have e : PyamgV.C10M.rdN #[0,2] (0+1) = 2 := rfl
+    rw [e] at h2 h4
+    interval_cases jj <;> interval_cases jj' <;> first | rfl | (exact absurd he (by decide))
+
+example : PyamgV.C10M.incompleteMatMultBsr #[0,2] #[1,0] #[(2:ℤ),3] #[0,2,3] #[1,0,1] #[(5:ℤ),7,11] #[0,2] #[1,0]
+    #[(10:ℤ),20] 1 2 1 1 1 = #[47, 41] := by decide
+
+example : (PyamgV.C10M.incompleteMatMultBsr #[0,2] #[1,0] #[(2:ℤ),3] #[0,2,3] #[1,0,1] #[(5:ℤ),7,11] #[0,2] #[1,0]
+    #[(10:ℤ),20] 1 2 1 1 1).size = 2 :=
+  (PyamgV.C10b.incompleteMatMultBsr_spec #[0,2] #[1,0] #[(2:ℤ),3] #[0,2,3] #[1,0,1] #[(5:ℤ),7,11] #[0,2] #[1,0]
+    #[(10:ℤ),20] 1 2 1 1 1 bsr_example_hyps.1 bsr_example_hyps.2.1 bsr_example_hyps.2.2.1 bsr_example_hyps.2.2.2).1
+
+/-- the complex tentative-prolongator theorems apply to every complex input (`ℝ × ℝ`, real square root) -/
+example {ι α : Type} [Fintype ι] [Fintype α] [DecidableEq α] (agg : ι → Option α) (B : ι → Nat → ℝ × ℝ)
+    (K2 : Nat) (a : α) (i : ι) (hi : agg i = some a) (c : Nat) (hc : c < K2) :
+    ∑ a' : α, (PyamgV.C10.ccolTR (PyamgV.C10.cfitAgg Real.sqrt (1 / 10 ^ 10) agg B K2 a') c).1 i =
+      (B i c).1 - ((PyamgV.C10.cfitAgg Real.sqrt (1 / 10 ^ 10) agg B K2 a).drop.getD c 0).1 i :=
+  (PyamgV.C10.cfit_reproduces Real.sqrt (fun _ h => Real.mul_self_sqrt h) Real.sqrt_nonneg (1 / 10 ^ 10)
+    (by positivity) agg B K2 a i hi c hc).1
+
+/-- a concrete GMRES run (two steps, `A = [[2,1],[1,3]]`, `T = I`, `B_c = (1,1)ᵀ`): it passes the exact
+checks, so `gmres_run_checked` applies to it -/
+restate gmres_example_checked := PyamgV.C10b.exRun_checked
+restate gmres_example_keeps_product := PyamgV.C10b.exRun_keeps_product
+/-- ... and it satisfies every hypothesis of `gmres_run_property` -/
+restate gmres_example_property := PyamgV.C10b.exRun_property
 
 /-! ### interface facts regenerated from the working tree on every run (translator tie) -/
 /-- the `kernels_smoothed_aggregation` table the models assume equals the one regenerated from the source now -/
